@@ -149,7 +149,9 @@ fn eval_npy(_ctx: &Ctx, case: &NpyCase) -> Verdict {
 #[derive(Clone, Debug, Serialize, Deserialize)]
 pub enum TextEdit {
     RemoveTokens { at: u16, count: usize },
-    InsertTokens { at: u16, count: usize },
+    /// `sep`: 0 = space, 1 = tab, 2 = line feed between the inserted tokens and their neighbours;
+    /// `after_final_newline`: append the tokens after the file's final newline instead
+    InsertTokens { at: u16, count: usize, #[serde(default)] sep: u8, #[serde(default)] after_final_newline: bool },
     ChangeLength { axis: u16, delta: i8 },
     AddAxis { at: u16, len: usize },
     DropAxis { at: u16 },
@@ -169,11 +171,11 @@ fn text_strategy() -> impl Strategy<Value = TextCase> {
         any::<u64>(),
         0usize..=8,
         prop_oneof![
-            (any::<u16>(), 1usize..=3).prop_map(|(at, count)| TextEdit::RemoveTokens { at, count }),
-            (any::<u16>(), 1usize..=3).prop_map(|(at, count)| TextEdit::InsertTokens { at, count }),
-            (any::<u16>(), prop_oneof![Just(-2i8), Just(-1), Just(1), Just(2)]).prop_map(|(axis, delta)| TextEdit::ChangeLength { axis, delta }),
-            (any::<u16>(), 2usize..=4).prop_map(|(at, len)| TextEdit::AddAxis { at, len }),
-            any::<u16>().prop_map(|at| TextEdit::DropAxis { at }),
+            2 => (any::<u16>(), 1usize..=3).prop_map(|(at, count)| TextEdit::RemoveTokens { at, count }),
+            2 => (any::<u16>(), 1usize..=3, 0u8..3, prop::bool::weighted(0.25)).prop_map(|(at, count, sep, after_final_newline)| TextEdit::InsertTokens { at, count, sep, after_final_newline }),
+            2 => (any::<u16>(), prop_oneof![Just(-2i8), Just(-1), Just(1), Just(2)]).prop_map(|(axis, delta)| TextEdit::ChangeLength { axis, delta }),
+            1 => (any::<u16>(), 2usize..=4).prop_map(|(at, len)| TextEdit::AddAxis { at, len }),
+            1 => any::<u16>().prop_map(|at| TextEdit::DropAxis { at }),
         ],
     )
         .prop_map(|(shape, seed, precision, edit)| TextCase { shape, seed, precision, edit })
@@ -196,12 +198,28 @@ pub fn damaged_text(case: &TextCase) -> Option<(String, String)> {
             tokens.drain(i..i + count);
             what = format!("{count} value token(s) removed at {i}");
         }
-        TextEdit::InsertTokens { at, count } => {
-            let i = pick_idx(*at, tokens.len() + 1);
-            for k in 0..*count {
-                tokens.insert(i, format!("{:.p$}", k as f64 + 0.5));
+        TextEdit::InsertTokens { at, count, sep, after_final_newline } => {
+            let sep_str = [" ", "\t", "\n"][*sep as usize % 3];
+            let extra: Vec<String> = (0..*count).map(|k| format!("{:.p$}", k as f64 + 0.5)).collect();
+            let header = shape.iter().map(|s| s.to_string()).collect::<Vec<_>>().join("/");
+            if *after_final_newline {
+                let text = format!("#SHAPE=<{header}>\n{}\n{}\n", tokens.join(" "), extra.join(sep_str));
+                return Some((text, format!("{count} value token(s) appended after the final newline")));
             }
-            what = format!("{count} value token(s) inserted at {i}");
+            let i = pick_idx(*at, tokens.len() + 1);
+            // tokens before i, the inserted ones joined by `sep`, tokens after i
+            let mut text = format!("#SHAPE=<{header}>\n");
+            text.push_str(&tokens[..i].join(" "));
+            if i > 0 {
+                text.push_str(sep_str);
+            }
+            text.push_str(&extra.join(sep_str));
+            if i < tokens.len() {
+                text.push_str(sep_str);
+                text.push_str(&tokens[i..].join(" "));
+            }
+            text.push('\n');
+            return Some((text, format!("{count} value token(s) inserted at {i} separated by {sep_str:?}")));
         }
         TextEdit::ChangeLength { axis, delta } => {
             let a = pick_idx(*axis, shape.len());
@@ -371,7 +389,7 @@ pub fn check(ctx: &Ctx) -> Check {
         }),
         Box::new(RandomPart {
             name: "text-faults",
-            rule: "text files with 1..3 value tokens removed or inserted anywhere, or with the declared shape edited so that its product changes (length +-1/2, axis added, axis dropped); edits that keep the product are not generated; read::Builder (auto-detect) must return Err, the undamaged control must be accepted",
+            rule: "text files with 1..3 value tokens removed, or inserted anywhere separated by a space, a tab or a line feed, or appended after the final newline, or with the declared shape edited so that its product changes (length +-1/2, axis added, axis dropped); edits that keep the product are not generated; read::Builder (auto-detect) must return Err, the undamaged control must be accepted",
             cases: ctx.tier.pick(1500, 20_000),
             strategy: Box::new(|| text_strategy().boxed()),
             eval: Box::new(eval_text),
